@@ -8,7 +8,7 @@ import Heathcliff.Proofs.C01V
 import Heathcliff.Proofs.C01X
 import Heathcliff.Proofs.C01Y
 import Heathcliff.Proofs.GenScalingSpec
-import Heathcliff.Proofs.GenDec4
+import Heathcliff.Proofs.GenDec11
 import Heathcliff.Proofs.GenRns8
 import Heathcliff.Proofs.GenRns19
 import Heathcliff.Proofs.GenContextC01
@@ -630,5 +630,9 @@ example : GenW.mulop_new 62 (HC.gz_exLevel.q 0) = .ok (HC.gz_exCdp.getD 0 defaul
 theorem gen_bgv_decrypt_fixup_eq : type_of% @HC.gd_bgv_decrypt_eq := @HC.gd_bgv_decrypt_eq
 theorem gen_bgv_fixup_inverse_every_t : type_of% @HC.gd_bgvFixup_spec := @HC.gd_bgvFixup_spec
 theorem gen_bgv_fixup_composite_witness : type_of% @HC.gd_bgv_witness := @HC.gd_bgv_witness
+
+/-- the phase computation `dot_product_ct_sk_array` as regenerated: order of kernel calls / offsets = the model's, every size ≥ 2 -/
+theorem gen_dot_product_plan_eq : type_of% @HC.gd_dot_product_plan_eq := @HC.gd_dot_product_plan_eq
+theorem gen_dot_plan_witness : type_of% @HC.gd_dot_plan_witness := @HC.gd_dot_plan_witness
 
 end HC.C01
